@@ -344,7 +344,12 @@ func c10Gen(t *rapid.T) c10Case {
 		c.Dups = append(c.Dups, rapid.IntRange(0, n-1).Draw(t, "dup"))
 	}
 	if n+len(c.Dups) > 5 {
-		c.PermSeeds = rapid.SliceOfN(rapid.Uint64(), 40, 56).Draw(t, "perm_seeds")
+		// two draws only (the shrinker would otherwise spend its time bisecting ~50 64-bit seeds); the case lists the seeds
+		r := c10Rng(rapid.Uint32().Draw(t, "perm_master_seed"))
+		np := rapid.IntRange(40, 56).Draw(t, "n_orders")
+		for i := 0; i < np; i++ {
+			c.PermSeeds = append(c.PermSeeds, r.next()>>16)
+		}
 	}
 	return c
 }
